@@ -454,7 +454,10 @@ func (f *DefaultFanController) calculateTargetPwm() (int, error) {
 	fan := f.fan
 	target, err := f.curve.Evaluate()
 	if err != nil {
-		ui.Fatal("Unable to calculate optimal PWM value for %s: %v", fan.GetId(), err)
+		// ui.Fatal would panic and kill the whole daemon with all fans left in manual mode,
+		// instead stop controlling this fan, which restores it to a safe state
+		ui.Error("Unable to calculate optimal PWM value for %s: %v", fan.GetId(), err)
+		return -1, err
 	}
 
 	// the target pwm, approaching the actual target smoothly
